@@ -7,6 +7,7 @@
 #include <cstring>
 #include <ctime>
 #include <dlfcn.h>
+#include <csignal>
 #include <fcntl.h>
 #include <map>
 #include <sys/stat.h>
@@ -22,6 +23,8 @@ struct FdInfo { int proc; int fileid; bool writing; };
 static std::map<int, FdInfo> g_fds;          // tracked descriptors
 static std::map<int, int> g_lock;            // proc -> mode (1 shared, 2 exclusive) on the lock file
 static Env *g_env = nullptr;
+typedef void (*sighandler)(int);
+static std::map<std::pair<int, int>, sighandler> g_handlers;  // (process, signal) -> handler
 static long g_mtime[4] = {0, 0, 0, 0};      // simulated modification time (seconds) per tracked file, 0 = never modified in this run
 static void touch(int fileid, int proc) { if (fileid >= 0 && fileid < 4 && g_env) g_mtime[fileid] = g_env->clock(proc); }
 
@@ -36,10 +39,19 @@ void reset(Env *env) {
   g_fds.clear();
   g_lock.clear();
   for (long &m : g_mtime) m = 0;
+  g_handlers.clear();
 }
 
 // pids are chosen so that some host strings are proper prefixes of others (simhost:12 / simhost:123 / simhost:1234):
 // a restart pattern must match hosts exactly
+bool deliver_signal(int proc, int signum) {
+  auto it = g_handlers.find(std::make_pair(proc, signum));
+  if (it == g_handlers.end() || it->second == SIG_DFL || it->second == SIG_IGN) return it != g_handlers.end() && it->second == SIG_IGN;
+  sighandler h = it->second;
+  h(signum);  // code under test; may not return (re-raise with default action)
+  return true;
+}
+
 int pid_of(int proc) {
   static const int pids[] = {1, 12, 123, 1234, 77, 771, 7712, 45, 451};
   return proc >= 0 && proc < 9 ? pids[proc] : 9000 + proc;
@@ -297,6 +309,75 @@ int fstat(int fd, struct stat *st) {
 int stat64(const char *path, struct stat64 *st) { return stat(path, (struct stat *)st); }
 int lstat64(const char *path, struct stat64 *st) { return lstat(path, (struct stat *)st); }
 int fstat64(int fd, struct stat64 *st) { return fstat(fd, (struct stat *)st); }
+
+// ---- signals and process termination requested by the code under test ------------------------------------
+sighandler signal(int signum, sighandler h) {
+  typedef sighandler (*fn)(int, sighandler);
+  static fn real = (fn)dlsym(RTLD_NEXT, "signal");
+  if (!active() || !g_env || sim::self_proc() < 1) return real(signum, h);
+  sim::Harness harness_scope;
+  auto key = std::make_pair(sim::self_proc(), signum);
+  sighandler old = g_handlers.count(key) ? g_handlers[key] : SIG_DFL;
+  g_handlers[key] = h;
+  return old;
+}
+
+int sigaction(int signum, const struct sigaction *act, struct sigaction *oldact) {
+  typedef int (*fn)(int, const struct sigaction *, struct sigaction *);
+  static fn real = (fn)dlsym(RTLD_NEXT, "sigaction");
+  if (!active() || !g_env || sim::self_proc() < 1) return real(signum, act, oldact);
+  sim::Harness harness_scope;
+  auto key = std::make_pair(sim::self_proc(), signum);
+  if (oldact) { memset(oldact, 0, sizeof *oldact); oldact->sa_handler = g_handlers.count(key) ? g_handlers[key] : SIG_DFL; }
+  if (act) g_handlers[key] = act->sa_handler;
+  return 0;
+}
+
+static void terminate_simulated(int code, const char *how) {
+  int proc = sim::self_proc();
+  { sim::Harness harness_scope; g_env->process_exit(proc, code, how); }
+  sim::kill_process(proc);
+}
+
+int raise(int signum) {
+  typedef int (*fn)(int);
+  static fn real = (fn)dlsym(RTLD_NEXT, "raise");
+  if (!active() || !g_env || sim::self_proc() < 1) return real(signum);
+  if (deliver_signal(sim::self_proc(), signum)) return 0;
+  terminate_simulated(128 + signum, "raise with default action");
+  return 0;
+}
+
+int kill(pid_t pid, int signum) {
+  typedef int (*fn)(pid_t, int);
+  static fn real = (fn)dlsym(RTLD_NEXT, "kill");
+  if (!active() || !g_env || sim::self_proc() < 1) return real(pid, signum);
+  if (pid != pid_of(sim::self_proc())) return 0;  // signals to other processes are not modelled
+  if (signum == 0) return 0;
+  if (deliver_signal(sim::self_proc(), signum)) return 0;
+  terminate_simulated(128 + signum, "kill(self) with default action");
+  return 0;
+}
+
+void exit(int code) {
+  typedef void (*fn)(int);
+  static fn real = (fn)dlsym(RTLD_NEXT, "exit");
+  if (active() && g_env && sim::self_proc() >= 1) terminate_simulated(code, "exit");
+  real(code);
+  __builtin_unreachable();
+}
+void _exit(int code) {
+  if (active() && g_env && sim::self_proc() >= 1) terminate_simulated(code, "_exit");
+  syscall(SYS_exit_group, code);
+  __builtin_unreachable();
+}
+void abort(void) {
+  typedef void (*fn)(void);
+  static fn real = (fn)dlsym(RTLD_NEXT, "abort");
+  if (active() && g_env && sim::self_proc() >= 1) terminate_simulated(134, "abort");
+  real();
+  __builtin_unreachable();
+}
 
 // rename / unlink / remove of files in the job directory: decision point before, file event after (the job file
 // may have been replaced atomically)
